@@ -228,6 +228,9 @@ func init() {
 	registerRule(&RuleDef{ID: "GEN-ENUM", Min: 1, Doc: "enum alias names only with enum types on", Run: ruleGENENUM})
 	registerRule(&RuleDef{ID: "L-ATOM", Min: 8, Doc: "no value read from a guarded field is used in a later critical section of the same lock (split critical section / check-then-act)", Run: ruleLATOM("client", "cache", "server", "database/inmemory")})
 	add("C05", "L-ATOM")
+	registerRule(&RuleDef{ID: "GEN-TMPL", Min: 6, Doc: "the code the generator's template emits for pointer/slice/map columns: map equality checks key presence, lengths compared first, copies are new values (template specialised per shape, not executed)", Run: ruleGENTMPL})
+	add("C13", "GEN-TMPL")
+	add("C20", "GEN-TMPL")
 	add("C08", "X1")
 	add("C09", "P-HASH")
 	add("C16", "L5")
